@@ -19,7 +19,8 @@ RULE = ('timed traces: (a) event lists with clock gaps around the timeout and is
         'non-trivial = the reaper closed the connection, or a sweep / check found it not inactive while its last client I/O was '
         'within one second of the threshold; distinct = distinct inputs')
 TRUSTED = ['the virtual clock replaces time.time() in proxy.http.handler only; times are multiples of 1/1024 s so float arithmetic is exact',
-           'Threadless._run_once (selector, task dispatch) is replaced by the scripted iteration; _run_forever, _cleanup_inactive, _cleanup are the real methods',
+           'threadless loops: the real _run_forever, _run_once (task creation, asyncio.wait, teardown), _cleanup_inactive, _cleanup run on a real asyncio loop; '
+           'only _selected_events (selector) is scripted; a second work with a gated (suspended) handle_events coroutine keeps tasks unfinished across sweeps',
            'DEFAULT_SELECTOR_SELECT_TIMEOUT + DEFAULT_WAIT_FOR_TASKS_TIMEOUT and DEFAULT_INACTIVE_CONN_CLEANUP_TIMEOUT are read from /repo and '
            'passed to the model in whole microseconds (float tick arithmetic is assumed to agree with the exact one away from ties)']
 ASSUMPTIONS = ['delta, the longest duration of one loop iteration, is an assumption of the liveness bound (C20_live)',
@@ -66,6 +67,14 @@ def gen_reaper(rng, threaded, quick):
             shift = target - case['iters'][i]['t']
             for x in case['iters'][i:]:
                 x['t'] += shift
+    # a second work B in the same executor whose handle_events task stays unfinished (slow plugin future) across many
+    # iterations, typically across one or two sweeps: the tick counter and the sweep must not care
+    if not threaded and rng.random() < 0.7:
+        b0 = rng.randrange(0, 12)
+        b1 = rng.choice([b0 + 3, 45, 70, n_it + 5])
+        case['b_busy'] = [[b0, b1]]
+        if b1 < n_it - 10 and rng.random() < 0.5:
+            case['b_busy'].append([b1 + 2, n_it + 5])
     # keep times monotone
     prev = T0
     for x in case['iters']:
@@ -164,6 +173,29 @@ def oracle(case, out):
                     return 'sweep at %d left an idle connection alive (nothing pending, last client I/O at %d, timeout %d ticks)' % (it['t'] - t0, last - t0, D)
             if cur['fate']:
                 closed = True
+        # liveness bound (C20_live), whatever other works do: once A has nothing pending and gets no more events it is
+        # reaped by max(first idle iteration, last client I/O + timeout + delta) + ceil(cleanup/period) * delta,
+        # delta = the largest gap between consecutive iterations of this trace
+        pu0, cu0 = NC.reaper_constants()
+        n00 = -(-cu0 // pu0)
+        ts = [it['t'] for it in case['iters']][:len(out['log'])]
+        ev_idx = [i for i, cur in enumerate(out['log']) if cur['ev_index'] is not None]
+        first_idle = (ev_idx[-1] + 1) if ev_idx else 0
+        handler_closed = any(cur['fate'] == 1 for cur in out['log'])
+        if not handler_closed and first_idle < len(ts):
+            last, pend = state_at(len(out['steps']))
+            if pend == 0:
+                delta = max([b - a for a, b in zip(ts, ts[1:])] + [0])
+                bound = max(ts[first_idle], last + D + delta) + n00 * delta
+                reaped_at = next((ts[i] for i, cur in enumerate(out['log']) if cur['fate'] == 2), None)
+                busy_iters = sum(1 for cur in out['log'] if cur['unfinished'])
+                if reaped_at is None and ts[-1] > bound:
+                    return ('idle work not reaped: nothing pending, last client I/O at %d, timeout %d ticks, iterations at most %d ticks apart: '
+                            'bound %d passed at %d and the connection is still open (another work had an unfinished task in %d iterations)'
+                            % (last - t0, D, delta, bound - t0, ts[-1] - t0, busy_iters))
+                if reaped_at is not None and reaped_at > bound:
+                    return 'idle work reaped at %d, later than the bound %d (another work had an unfinished task in %d iterations)' % (
+                        reaped_at - t0, bound - t0, busy_iters)
         # the sweep itself: every 39 iterations with the repository's constants (a count, not a clock)
         pu, cu = NC.reaper_constants()
         n0 = -(-cu // pu)
